@@ -8,6 +8,8 @@
 -/
 import VK.Model.STV
 import VK.Lemmas.Sum
+import VK.Lemmas.PSC
+import VK.Model.Rules
 import Mathlib.Data.Rat.Floor
 import Mathlib.Algebra.Order.Floor.Ring
 import Mathlib.Algebra.Order.BigOperators.Group.List
@@ -128,6 +130,394 @@ theorem C07_majority_selected (scores : List (Cand × Rat)) (q : Int) (c : Cand)
     (hc : (c, v) ∈ scores) (hv : (q : Rat) ≤ v) :
     (c, v) ∈ scores.filter (fun cs => decide ((q : Rat) ≤ cs.2)) := by
   simp [List.mem_filter, hc, hv]
+
+
+/-! ## The run-level proof (fractional transfer)
+
+Notation: `Sset` the coalition's candidates, `HS` its members still hopeful, `jS` its members
+elected so far, `kwS` the current weight of the ballots solid for it. -/
+
+def HS (Sset : List Cand) (S : CState) : List Cand := S.hopeful.filter (fun c => Sset.contains c)
+def jS (Sset : List Cand) (recs : List RoundState) : Nat := ((electedIn recs).filter (fun c => Sset.contains c)).length
+def kwS (Sset : List Cand) (bs : List PBallot) : Rat := wsum (fun b => solidB Sset b.1) bs
+
+/-- the invariant of the Droop-proportionality argument -/
+structure PscInv (cands Sset : List Cand) (k : Nat) (q : Int) (N : Rat)
+    (S : CState) (prev : RoundState) (recs : List RoundState) : Prop where
+  inv : StvInv cands S prev recs
+  link : Linked S prev
+  nn : ∀ b ∈ S.bs, 0 ≤ b.2
+  /-- while a member of the coalition is hopeful, the coalition still holds `k − j` quotas -/
+  kw : HS Sset S ≠ [] → (k : Rat) * q ≤ kwS Sset S.bs + (jS Sset recs : Rat) * q
+  /-- elected plus hopeful members never drop below `min k |S|` -/
+  cnt : min k Sset.length ≤ jS Sset recs + (HS Sset S).length
+  /-- every seat filled by the quota test has consumed a quota -/
+  acc : S.hopeful = [] ∨ active S.bs S.hopeful + (S.nElected : Rat) * q ≤ N
+
+theorem topOf_mem_hopeful (hop r : List Cand) (c : Cand) (h : topOf hop r = some c) : c ∈ hop := by
+  unfold topOf at h
+  simpa using List.find?_some h
+
+/-- a ballot solid for the coalition counts for a hopeful member while one exists -/
+theorem solid_top_in_HS (Sset : List Cand) (S : CState) (r : List Cand) (hs : solidB Sset r = true)
+    (hne : HS Sset S ≠ []) : ∃ c, topOf S.hopeful r = some c ∧ c ∈ HS Sset S := by
+  obtain ⟨c0, hc0⟩ := List.exists_mem_of_ne_nil _ hne
+  have hc0' := List.mem_filter.1 hc0
+  obtain ⟨c, hc, hcS⟩ := C07_solid_top_in_S Sset S.hopeful r ((solidB_iff _ _).1 hs)
+    ⟨c0, by simpa using hc0'.2, hc0'.1⟩
+  exact ⟨c, hc, List.mem_filter.2 ⟨topOf_mem_hopeful _ _ _ hc, by simpa using hcS⟩⟩
+
+theorem filter_ne_length (l : List Cand) (c : Cand) (hn : l.Nodup) :
+    (l.filter (fun x => x != c)).length + (if c ∈ l then 1 else 0) = l.length := by
+  by_cases hc : c ∈ l
+  · have := (filter_ne_perm l c hn hc).length_eq
+    simp only [List.length_append, List.length_cons, List.length_nil] at this
+    simp [hc]; omega
+  · have : l.filter (fun x => x != c) = l := by
+      rw [List.filter_eq_self]
+      intro a ha
+      have : a ≠ c := fun e => hc (e ▸ ha)
+      simpa using this
+    simp [hc, this]
+
+/-- **One step keeps the proportionality invariant** (fractional transfer, positive threshold). -/
+theorem psc_step (cfg : STVCfg) (init : Profile) (q : Int) (ω : STVOracle) (rnd : Nat) (Sset : List Cand)
+    (k : Nat) (N : Rat) (S S' : CState) (prev r : RoundState) (recs : List RoundState)
+    (hf : cfg.transfer = .fractional) (hq : 0 < q) (hi : init.cands.Nodup)
+    (hcs : ∀ c ∈ S.hopeful, c ∈ init.cands)
+    (P : PscInv init.cands Sset k q N S prev recs)
+    (h : stvStep cfg init q ω rnd S prev = .ok (S', r)) :
+    PscInv init.cands Sset k q N S' r (r :: recs) := by
+  have hqr : (0 : Rat) < (q : Rat) := by exact_mod_cast hq
+  obtain ⟨inv', hsub', _⟩ := stvStep_inv cfg init q ω rnd S S' prev r recs hi hcs P.inv h
+  have link' := stvStep_linked cfg init q ω rnd S S' prev r h
+  have hHSsub : ∀ c ∈ HS Sset S', c ∈ HS Sset S := by
+    intro c hc
+    obtain ⟨h1, h2⟩ := List.mem_filter.1 hc
+    exact List.mem_filter.2 ⟨hsub' c h1, h2⟩
+  rcases stvStep_cases cfg init q ω rnd S S' prev r h with
+    ⟨g, tbs, bs', habove, he, ha, hSb, hSh, hSn, hre, hrx, _⟩ |
+    ⟨_, hSh, hSb, hSn, _, _, hre, hrx, _⟩ |
+    ⟨habove, lowest, c, tbs, hlast, hlc, hSb, hSh, hSn, hre, hrx⟩
+  · ---------------------------------------------------------------- election round
+    obtain ⟨hWn, hWs⟩ := electChoice_spec cfg q ω rnd S prev g tbs P.inv.hop_nodup P.inv.rem he
+    have hge := electChoice_ge cfg q ω rnd S prev g tbs P.link P.inv.hop_nodup habove he
+    -- weights stay non-negative
+    have hnn' : ∀ b ∈ bs', 0 ≤ b.2 :=
+      (applyTransfers_coalition cfg S.hopeful q _ (fun _ => false) (fun _ => false) hf hq g.flatten S.bs bs'
+        P.nn hWn hge (by intro w _ _; simp [wsum]) ha).1
+    have hjS : jS Sset (r :: recs) = (g.flatten.filter (fun c => Sset.contains c)).length + jS Sset recs := by
+      unfold jS; rw [electedIn_cons, hre]; simp
+    have hsplit := filter_not_contains_perm S.hopeful g.flatten P.inv.hop_nodup hWn hWs
+    have hHSlen : (HS Sset S').length + (g.flatten.filter (fun c => Sset.contains c)).length = (HS Sset S).length := by
+      have := (hsplit.filter (fun c => Sset.contains c)).length_eq
+      rw [List.filter_append, List.length_append] at this
+      unfold HS; rw [hSh]; exact this
+    refine ⟨inv', link', by rw [hSb]; exact hnn', ?_, ?_, ?_⟩
+    · intro hne'
+      have hne : HS Sset S ≠ [] := by
+        obtain ⟨c0, hc0⟩ := List.exists_mem_of_ne_nil _ hne'
+        exact List.ne_nil_of_mem (hHSsub c0 hc0)
+      have hout : ∀ w ∈ g.flatten, (fun c => Sset.contains c) w = false →
+          wsum (fun b => solidB Sset b.1 && decide (topOf S.hopeful b.1 = some w)) S.bs = 0 := by
+        intro w _ hw
+        have hfalse : (fun b : PBallot => solidB Sset b.1 && decide (topOf S.hopeful b.1 = some w)) = fun _ => false := by
+          funext b
+          by_cases hs : solidB Sset b.1 = true
+          · obtain ⟨c', hc', hcHS⟩ := solid_top_in_HS Sset S b.1 hs hne
+            have hcS : Sset.contains c' = true := (List.mem_filter.1 hcHS).2
+            have : c' ≠ w := fun e => by rw [e] at hcS; simp only at hw; rw [hw] at hcS; cases hcS
+            simp [hs, hc', this]
+          · simp [hs]
+        rw [hfalse]; simp [wsum]
+      have hco := (applyTransfers_coalition cfg S.hopeful q _ (fun r => solidB Sset r) (fun c => Sset.contains c)
+        hf hq g.flatten S.bs bs' P.nn hWn hge hout ha).2
+      have h0 := P.kw hne
+      unfold kwS at h0 ⊢
+      rw [hSb, hjS]
+      push_cast
+      nlinarith
+    · rw [hjS]; have := P.cnt; omega
+    · rcases P.acc with h0 | h0
+      · left; rw [hSh, h0]; rfl
+      · right
+        have h3 := applyTransfers_fractional_active cfg S.hopeful q _ g.flatten S.bs bs' hf ha
+        have h4 := active_shrink bs' S.hopeful S'.hopeful hsub'
+        have hex : 0 ≤ exhausted bs' S.hopeful S'.hopeful := wsum_nonneg _ _ hnn'
+        rw [hSb, hSn]
+        push_cast
+        nlinarith
+  · ---------------------------------------------------------------- the remaining candidates fill the seats
+    have hHS' : HS Sset S' = [] := by unfold HS; rw [hSh]; rfl
+    refine ⟨inv', link', ?_, ?_, ?_, Or.inl hSh⟩
+    · intro b hb
+      rw [hSb] at hb
+      obtain ⟨b0, _, rfl⟩ := List.mem_map.1 hb
+      exact le_refl _
+    · intro hne; exact absurd hHS' hne
+    · have hjS : jS Sset (r :: recs) = (HS Sset S).length + jS Sset recs := by
+        unfold jS HS
+        rw [electedIn_cons, hre, List.filter_append, List.length_append]
+        rw [(P.inv.rem.filter _).length_eq]
+      rw [hjS, hHS']; have := P.cnt; simp only [List.length_nil]; omega
+  · ---------------------------------------------------------------- elimination round
+    have hjS : jS Sset (r :: recs) = jS Sset recs := by
+      unfold jS; rw [electedIn_cons, hre]; simp
+    have hHSn : (HS Sset S).Nodup := P.inv.hop_nodup.filter _
+    have hHS' : HS Sset S' = (HS Sset S).filter (fun x => x != c) := by
+      unfold HS; rw [hSh, List.filter_filter, List.filter_filter]
+      apply List.filter_congr; intro x _; exact Bool.and_comm _ _
+    have hlen := filter_ne_length (HS Sset S) c hHSn
+    refine ⟨inv', link', by rw [hSb]; exact P.nn, ?_, ?_, ?_⟩
+    · intro hne'
+      have hne : HS Sset S ≠ [] := by
+        obtain ⟨c0, hc0⟩ := List.exists_mem_of_ne_nil _ hne'
+        exact List.ne_nil_of_mem (hHSsub c0 hc0)
+      rw [hSb, hjS]; exact P.kw hne
+    · rw [hjS, hHS']
+      by_cases hcH : c ∈ HS Sset S
+      · -- a hopeful member of the coalition is eliminated: impossible while the count is at its minimum
+        simp only [hcH, if_true] at hlen
+        by_contra hcon
+        have hne : HS Sset S ≠ [] := List.ne_nil_of_mem hcH
+        have hkw := P.kw hne
+        have hcnt := P.cnt
+        -- |HS| ≤ k − j and the coalition's weight sits on HS
+        have hle : (HS Sset S).length + jS Sset recs ≤ k := by
+          have : min k Sset.length ≤ k := Nat.min_le_left _ _
+          omega
+        have hsum : kwS Sset S.bs ≤ rsum ((HS Sset S).map (fun c => tally S.bs S.hopeful c)) := by
+          rw [sum_tally_subset S.bs S.hopeful (HS Sset S) hHSn]
+          unfold kwS
+          apply wsum_le_of_imp _ _ S.bs P.nn
+          intro b _ hb
+          obtain ⟨c', hc', hcHS⟩ := solid_top_in_HS Sset S b.1 hb hne
+          simp only [hc']
+          simpa using hcHS
+        have hquota : ((HS Sset S).length : Rat) * q ≤ ((HS Sset S).map (fun c => tally S.bs S.hopeful c)).sum := by
+          rw [← rsum_eq_sum]
+          have h1 : ((HS Sset S).length : Rat) + (jS Sset recs : Rat) ≤ (k : Rat) := by exact_mod_cast hle
+          nlinarith
+        obtain ⟨c', hc'H, hc'q⟩ := C07_pigeonhole (HS Sset S) (fun c => tally S.bs S.hopeful c) (q : Rat)
+          (HS Sset S).length (le_of_lt hqr) hne (le_refl _) hquota
+        -- so somebody is at the threshold, contradicting the branch
+        have hc'hop : c' ∈ S.hopeful := (List.mem_filter.1 hc'H).1
+        have hmem : (c', tally S.bs S.hopeful c') ∈ prev.scores := by
+          rw [P.link.1]; unfold tallies
+          exact List.mem_map.2 ⟨c', hc'hop, rfl⟩
+        have : (c', tally S.bs S.hopeful c') ∈ prev.scores.filter (fun cs => decide ((q : Rat) ≤ cs.2)) :=
+          List.mem_filter.2 ⟨hmem, by simpa using hc'q⟩
+        rw [List.isEmpty_iff.1 habove] at this
+        cases this
+      · simp only [hcH, if_false, Nat.add_zero] at hlen
+        rw [hlen]; exact P.cnt
+    · rcases P.acc with h0 | h0
+      · left; rw [hSh, h0]; rfl
+      · right
+        have h4 := active_shrink S.bs S.hopeful S'.hopeful hsub'
+        have hex : 0 ≤ exhausted S.bs S.hopeful S'.hopeful := wsum_nonneg _ _ P.nn
+        rw [hSb, hSn]
+        linarith
+
+/-- the loop keeps the proportionality invariant and can only finish with all seats filled -/
+theorem psc_loop (cfg : STVCfg) (init : Profile) (q : Int) (ω : STVOracle) (Sset : List Cand) (k : Nat) (N : Rat)
+    (hf : cfg.transfer = .fractional) (hq : 0 < q) (hi : init.cands.Nodup)
+    (fuel : Nat) (S : CState) (prev : RoundState) (acc tr : List (RoundState × CState))
+    (hcs : ∀ c ∈ S.hopeful, c ∈ init.cands) (P : PscInv init.cands Sset k q N S prev (acc.map (·.1)))
+    (h : stvLoop cfg init q ω fuel S prev acc = .ok tr) :
+    ∃ Sf prevf, PscInv init.cands Sset k q N Sf prevf (tr.reverse.map (·.1)) ∧ Sf.nElected = cfg.m := by
+  induction fuel generalizing S prev acc with
+  | zero =>
+    unfold stvLoop at h
+    split at h
+    · rename_i hm
+      injection h with h; subst h
+      exact ⟨S, prev, by simpa using P, hm⟩
+    · cases h
+  | succ fuel ih =>
+    unfold stvLoop at h
+    split at h
+    · rename_i hm
+      injection h with h; subst h
+      exact ⟨S, prev, by simpa using P, hm⟩
+    · cases hs : stvStep cfg init q ω (prev.round + 1) S prev with
+      | ok Sr =>
+        obtain ⟨S', r⟩ := Sr
+        simp only [hs, bind, Outcome.bind] at h
+        have P' := psc_step cfg init q ω _ Sset k N S S' prev r _ hf hq hi hcs P hs
+        obtain ⟨_, hsub, _⟩ := stvStep_inv cfg init q ω _ S S' prev r _ hi hcs P.inv hs
+        exact ih S' r ((r, S') :: acc) (fun c hc => hcs c (hsub c hc)) (by simpa using P') h
+      | raised e => simp [hs, bind, Outcome.bind] at h
+      | oracleMismatch => simp [hs, bind, Outcome.bind] at h
+      | outOfFuel => simp [hs, bind, Outcome.bind] at h
+
+/-- at the end of a count the invariant gives the seats -/
+theorem psc_final (cands Sset : List Cand) (k : Nat) (q : Int) (N : Rat) (m : Nat)
+    (S : CState) (prev : RoundState) (recs : List RoundState)
+    (P : PscInv cands Sset k q N S prev recs) (hm : S.nElected = m) (hq : 0 < q)
+    (hN : N < ((m : Rat) + 1) * (q : Rat)) :
+    min k (min Sset.length m) ≤ jS Sset recs := by
+  have hqr : (0 : Rat) < (q : Rat) := by exact_mod_cast hq
+  by_cases hne : HS Sset S = []
+  · have := P.cnt
+    rw [hne] at this
+    simp only [List.length_nil, Nat.add_zero] at this
+    have h1 : min k (min Sset.length m) ≤ min k Sset.length := by
+      simp only [Nat.le_min, Nat.min_le_left, true_and]
+      exact Nat.le_trans (Nat.min_le_right _ _) (Nat.min_le_left _ _)
+    omega
+  · by_contra hcon
+    have hlt : jS Sset recs < min k (min Sset.length m) := Nat.lt_of_not_le hcon
+    have hjk : jS Sset recs < k := Nat.lt_of_lt_of_le hlt (Nat.min_le_left _ _)
+    have hjm : jS Sset recs < m :=
+      Nat.lt_of_lt_of_le hlt (Nat.le_trans (Nat.min_le_right _ _) (Nat.min_le_right _ _))
+    have hkw := P.kw hne
+    -- the coalition still holds a full quota of active weight
+    have hk1 : (jS Sset recs : Rat) + 1 ≤ (k : Rat) := by exact_mod_cast hjk
+    have hkwq : (q : Rat) ≤ kwS Sset S.bs := by nlinarith
+    have hact : kwS Sset S.bs ≤ active S.bs S.hopeful := by
+      unfold kwS active
+      apply wsum_le_of_imp _ _ S.bs P.nn
+      intro b _ hb
+      obtain ⟨c', hc', _⟩ := solid_top_in_HS Sset S b.1 hb hne
+      simp [isActive, hc']
+    have hhop : S.hopeful ≠ [] := by
+      intro h0
+      apply hne
+      unfold HS; rw [h0]; rfl
+    rcases P.acc with h0 | h0
+    · exact hhop h0
+    · rw [hm] at h0
+      nlinarith
+
+theorem kwS_init (Sset : List Cand) (bs : List Ballot) :
+    kwS Sset (bs.map (fun b => (b.ranking.flatten, b.weight))) =
+      rsum ((bs.filter (fun b => solidB Sset b.ranking.flatten)).map (·.weight)) := by
+  unfold kwS
+  induction bs with
+  | nil => simp [wsum_nil]
+  | cons b rest ih =>
+    simp only [List.map_cons, wsum_cons, ih, List.filter_cons]
+    by_cases h : solidB Sset b.ranking.flatten <;> simp [h]
+
+theorem active_le_total (bs : List Ballot) (hop : List Cand) (hw : ∀ b ∈ bs, 0 ≤ b.weight) :
+    active (bs.map (fun b => (b.ranking.flatten, b.weight))) hop ≤ totalWeight bs := by
+  unfold active totalWeight
+  induction bs with
+  | nil => simp [wsum_nil]
+  | cons b rest ih =>
+    simp only [List.map_cons, wsum_cons, rsum_cons]
+    have h1 := ih (fun x hx => hw x (by simp [hx]))
+    have hb := hw b (by simp)
+    by_cases ha : isActive hop (b.ranking.flatten, b.weight) <;> simp [ha] <;> linarith
+
+theorem jS_reverse (Sset : List Cand) (l : List RoundState) : jS Sset l.reverse = jS Sset l := by
+  unfold jS electedIn
+  exact ((((List.reverse_perm l).flatMap_right _).flatten).filter _).length_eq
+
+/-- **C07 — Droop proportionality for solid coalitions, fractional transfer, every mode, tiebreak and
+oracle.** If ballots whose total weight is at least `k` thresholds are solid for `Sset`, every
+finished count elects at least `min k (min |Sset| m)` members of `Sset`.
+
+`hfpv` is the one hypothesis about the model's glue: the initial first-place tallies computed by
+the scoring utility (`firstPlaceVotes`, as the code does) are the tallies of the initial count
+state. It is a decidable identity between two executable definitions of the same quantity; the
+driver evaluates it on every correspondence case (evidence: `fpv_link`). -/
+theorem C07_droop_psc_fractional (cfg : STVCfg) (p : Profile) (ω : STVOracle) (res : STVResult)
+    (Sset : List Cand) (k : Nat)
+    (hquota : cfg.quota = .droop) (hf : cfg.transfer = .fractional)
+    (hSc : ∀ c ∈ Sset, c ∈ p.cands) (hS : Sset.Nodup) (hc : p.cands.Nodup)
+    (hw : ∀ b ∈ p.ballots, 0 < b.weight)
+    (hfpv : firstPlaceVotes p = .ok (tallies (stvInitState p).bs p.cands))
+    (hrun : stvRun cfg p ω = .ok res)
+    (hK : (k : Rat) * (res.threshold : Rat) ≤
+      rsum ((p.ballots.filter (fun b => solidB Sset b.ranking.flatten)).map (·.weight))) :
+    min k (min Sset.length cfg.m) ≤ ((electedOf res.states).filter (fun c => Sset.contains c)).length := by
+  unfold stvRun at hrun
+  split at hrun; · cases hrun
+  split at hrun; · cases hrun
+  split at hrun; · cases hrun
+  simp only [hfpv, bind, Outcome.bind] at hrun
+  cases hl : stvLoop cfg p (threshold cfg.quota cfg.m p.total) ω (p.cands.length + 2) (stvInitState p)
+      (initialState p.cands (some (tallies (stvInitState p).bs p.cands)))
+      [(initialState p.cands (some (tallies (stvInitState p).bs p.cands)), stvInitState p)] with
+  | ok tr =>
+    simp only [hl, pure, Outcome.ok.injEq] at hrun
+    subst hrun
+    simp only at hK
+    rw [hquota] at hl hK
+    have hN0 : 0 ≤ p.total := by
+      unfold Profile.total totalWeight
+      apply rsum_nonneg
+      intro x hx
+      obtain ⟨b, hb, rfl⟩ := List.mem_map.1 hx
+      exact le_of_lt (hw b hb)
+    have hq : 0 < threshold .droop cfg.m p.total := by
+      have := C07_threshold_pos cfg.m p.total hN0; omega
+    have hNq := C07_droop_quota_bound cfg.m p.total
+    set sc0 := tallies (stvInitState p).bs p.cands with hsc0
+    set st0 := initialState p.cands (some sc0) with hst0
+    have hrem0 : st0.remaining.flatten.Perm p.cands := by
+      have := scoreToRanking_perm sc0
+      rw [hsc0, tallies_keys] at this
+      simpa [hst0, initialState] using this
+    have inv0 : StvInv p.cands (stvInitState p) st0 ([(st0, stvInitState p)].map (·.1)) := by
+      refine ⟨hc, hrem0, ?_, ?_, ?_, trivial⟩
+      · simp [stvInitState, electedIn, hst0, initialState]
+      · simp [stvInitState, electedIn, eliminatedIn, hst0, initialState]
+      · simpa [electedIn, eliminatedIn, hst0, initialState] using hrem0
+    have P0 : PscInv p.cands Sset k (threshold .droop cfg.m p.total) p.total (stvInitState p) st0
+        ([(st0, stvInitState p)].map (·.1)) := by
+      refine ⟨inv0, ⟨by simp [hst0, initialState, hsc0, stvInitState], by simp [hst0, initialState]⟩, ?_, ?_, ?_, ?_⟩
+      · intro b hb
+        simp only [stvInitState, List.mem_map] at hb
+        obtain ⟨b0, hb0, rfl⟩ := hb
+        exact le_of_lt (hw b0 hb0)
+      · intro _
+        have : jS Sset ([(st0, stvInitState p)].map (·.1)) = 0 := by
+          simp [jS, electedIn, hst0, initialState]
+        rw [this]
+        simp only [stvInitState, kwS_init]
+        simpa using hK
+      · have : (HS Sset (stvInitState p)).length = Sset.length := by
+          simp only [HS, stvInitState]
+          exact filter_contains_length p.cands Sset hc hS hSc
+        rw [this]
+        exact Nat.le_trans (Nat.min_le_right _ _) (Nat.le_add_left _ _)
+      · right
+        have := active_le_total p.ballots p.cands (fun b hb => le_of_lt (hw b hb))
+        simp only [stvInitState, Profile.total] at this ⊢
+        push_cast
+        linarith
+    obtain ⟨Sf, prevf, Pf, hm⟩ := psc_loop cfg p _ ω Sset k p.total hf hq hc _ _ _ _ tr (fun c hc' => hc') P0 hl
+    have hfin := psc_final p.cands Sset k _ p.total cfg.m Sf prevf _ Pf hm hq hNq
+    show min k (min Sset.length cfg.m) ≤ ((electedIn (tr.map (·.1))).filter (fun c => Sset.contains c)).length
+    have : jS Sset (tr.reverse.map (·.1)) = jS Sset (tr.map (·.1)) := by
+      rw [List.map_reverse, jS_reverse]
+    rw [this] at hfin
+    exact hfin
+  | raised e => simp [hl] at hrun
+  | oracleMismatch => simp [hl] at hrun
+  | outOfFuel => simp [hl] at hrun
+
+/-- **IRV majority criterion** (corollary, `S = {c}`, `k = 1`, one seat): a candidate ranked first on
+ballots worth at least the threshold wins IRV. -/
+theorem C07_irv_majority (p : Profile) (tb : Option TB) (ω : STVOracle) (res : STVResult) (c : Cand)
+    (hcm : c ∈ p.cands) (hc : p.cands.Nodup) (hw : ∀ b ∈ p.ballots, 0 < b.weight)
+    (hfpv : firstPlaceVotes p = .ok (tallies (stvInitState p).bs p.cands))
+    (hrun : irvRun p .droop tb ω = .ok res)
+    (hK : (res.threshold : Rat) ≤
+      rsum ((p.ballots.filter (fun b => solidB [c] b.ranking.flatten)).map (·.weight))) :
+    c ∈ electedOf res.states := by
+  unfold irvRun at hrun
+  have h := C07_droop_psc_fractional _ p ω res [c] 1 rfl rfl (by simpa using hcm) (by simp) hc hw hfpv hrun
+    (by simpa using hK)
+  simp only [List.length_cons, List.length_nil] at h
+  have hpos : 0 < ((electedOf res.states).filter (fun x => [c].contains x)).length := by omega
+  obtain ⟨x, hx⟩ := List.exists_mem_of_length_pos hpos
+  obtain ⟨hx1, hx2⟩ := List.mem_filter.1 hx
+  have : x = c := by simpa using hx2
+  rw [← this]; exact hx1
 
 /-- non-vacuity of `Solid` -/
 example : Solid [1, 0] [0, 1, 2] := (solidB_iff _ _).1 (by decide)
